@@ -22,6 +22,18 @@ DSL_NAMES = {"forall", "exists", "forall_range", "exists_range", "forall_keys", 
              "opt_val", "str_of_int", "type_name", "str_of_type", "result_is_fresh", "uf"}
 
 
+def _const_eval(node):
+    """literal_eval that also accepts dict(key=value, ...)"""
+    if isinstance(node, ast.Call) and isinstance(node.func, ast.Name) and node.func.id == "dict" and not node.args:
+        return {kw.arg: _const_eval(kw.value) for kw in node.keywords}
+    if isinstance(node, ast.Dict):
+        return {_const_eval(k): _const_eval(v) for k, v in zip(node.keys, node.values)}
+    if isinstance(node, (ast.List, ast.Tuple)):
+        vals = [_const_eval(e) for e in node.elts]
+        return vals if isinstance(node, ast.List) else tuple(vals)
+    return ast.literal_eval(node)
+
+
 @dataclass
 class SpecFn:
     name: str
@@ -87,9 +99,10 @@ class SpecSet:
         for st in tree.body:
             if isinstance(st, ast.Assign) and len(st.targets) == 1 and isinstance(st.targets[0], ast.Name):
                 try:
-                    consts[st.targets[0].id] = ast.literal_eval(st.value)
+                    consts[st.targets[0].id] = _const_eval(st.value)
                 except Exception:
-                    pass
+                    if st.targets[0].id.isupper():
+                        raise Unsupported(f"{path}: configuration constant {st.targets[0].id} is not a literal")
             elif isinstance(st, ast.FunctionDef):
                 self.fns[st.name] = SpecFn(st.name, st, modname)
             elif isinstance(st, ast.ClassDef):
@@ -176,6 +189,8 @@ class SpecSet:
         def ty(s, m=None):
             if isinstance(s, T.Ty):
                 return s
+            if s.startswith("opaque:"):
+                return T.Opaque(s[7:])
             return w.resolve_ann(ast.parse(s, mode="eval").body, m or mod)
 
         for (cls, fld), s in self.field_types_src.items():
@@ -349,6 +364,16 @@ def auto_patterns(vars_, body):
     return None
 
 
+def mk_quant(kind, vars_, body, pats=None, qid=""):
+    q = z3.ForAll if kind == "forall" else z3.Exists
+    if pats:
+        try:
+            return q(vars_, body, patterns=pats, qid=qid)
+        except z3.Z3Exception:
+            pass  # a candidate trigger was rejected by z3: let it choose
+    return q(vars_, body, qid=qid)
+
+
 class DslMixin:
     # ----------------------------------------------------------- evaluate
     def eval_spec(self, fn: SpecFn, bindings: dict | None, c: Contract | None):
@@ -495,7 +520,7 @@ class DslMixin:
             fb = z3.And(*facts)
             fq = z3.Implies(guard, fb) if guard is not None else fb
             fp = auto_patterns([var], fq)
-            self.side_fact(z3.ForAll([var], fq, patterns=fp) if fp else z3.ForAll([var], fq))
+            self.side_fact(mk_quant("forall", [var], fq, fp, "type-facts"))
         hyps = [guard] if guard is not None else []
         if kind == "forall":
             f = z3.Implies(z3.And(*hyps), body) if hyps else body
@@ -503,9 +528,7 @@ class DslMixin:
             f = z3.And(*hyps, body) if hyps else body
         pats = auto_patterns([var], f)
         qid = f"{self.frames[-1].fn_name if self.frames else ''}:{line}"
-        if kind == "forall":
-            return z3.ForAll([var], f, patterns=pats, qid=qid) if pats else z3.ForAll([var], f, qid=qid)
-        return z3.Exists([var], f, patterns=pats, qid=qid) if pats else z3.Exists([var], f, qid=qid)
+        return mk_quant(kind, [var], f, pats, qid)
 
     def _lam(self, node, idx):
         v = self.ev(node.args[idx])
